@@ -14,14 +14,15 @@ MANIFEST = {
                   "included) and single-track fragments under AddFullSample/AddFullSampleToTrack, optimisation on or off, any trex: "
                   "if Encode succeeds, GetFullSamples on the decoded view returns exactly the added full samples of the trex's track "
                   "(bytes, size, duration, flags, cto, decode time), given Size=len(Data), decode times consistent with durations and "
-                  "the 2 GiB int32 guard; the box codecs are abstracted by the trun wire view (structure level). Components: "
+                  "the 2 GiB int32 guard; trun/tfhd enter through their wire view, which C05_trun_codec / C05_tfhd_codec prove to be "
+                  "decode(encode) at the byte level (other boxes are positions and sizes). Components: "
                   "C05_optimize_resolve, C05_optimize_preserves_resolve (every flag word), C05_optimize_pinned_refuted (stale "
                   "first-sample-flags, fixed), C05_history_inv(_single) (one trun per maximal run, write-order number = run index, "
                   "per-track concatenation = added samples), C05_history_mdat, C05_offsets (data offset = moof + written mdat header + "
                   "sizes of earlier runs; run data placed there; tfdt = first decode time), C05_offsets_partial (single run, all six "
                   "operations), C05_lazy_equiv_partial (metadata-only histories build the same trafs/moof, lazy size = sum of sizes). "
-                  "NOT proved, explored only (model correspondence + round-trip search on the real code): the byte-level box codecs, "
-                  "both encoders/decoders, lazy and interval data modes end to end, multi-fragment segments.",
+                  "NOT proved, explored only (model correspondence + round-trip search on the real code): container framing and the "
+                  "mfhd/tfdt/mdat/extra-box bytes, both encoders/decoders, lazy and interval data modes end to end, multi-fragment segments.",
     "level_note": "Trusted: Coq kernel, extraction (ExtrOcamlBasic), OCaml/Go glue, generators. The model is a hand transcription tied to "
                   "/repo by differential runs on every check (op outcome classes, write-order numbers, tfdt, mdat bookkeeping, flags and "
                   "defaults after optimisation, all data offsets, sizes, recovered FullSample lists). Box bodies other than "
@@ -30,7 +31,7 @@ MANIFEST = {
                   "are outside the documented use and only covered by the correspondence.",
 }
 
-HANDLED = ("O", "H")   # case kinds the model driver recomputes
+HANDLED = ("O", "H", "D")   # case kinds the model driver recomputes
 
 
 def build(ctx):
@@ -119,7 +120,8 @@ def run(ctx):
                       "model/implementation disagree on %d cases" % len(mism), no_input=True)
     ctx.proof_violation_if_broken(pr, "c05 search: %d evaluations, no failing input" % ctx.notes.get("search_evaluations", 0))
     ctx.cov["rule"] = ("corr O: %d random (tfhd, trun flag word, first-sample-flags, 0-6 samples from small pools, trex or none) through "
-                       "OptimizeTfhdTrun, the real tfhd/trun codecs and AddSampleDefaultValues; corr H: one case per fragment of as many random "
+                       "OptimizeTfhdTrun, the real tfhd/trun codecs (encoded bytes compared byte for byte) and AddSampleDefaultValues; corr D: as many "
+                       "encoded trun/tfhd boxes with mutated flags/version/count/length through DecodeBox and DecodeBoxSR vs the model decoders; corr H: one case per fragment of as many random "
                        "segments (a third of them outside the documented use: mixed data modes, single-track calls on multi-track "
                        "fragments, unknown track ids, inconsistent sizes/decode times): op outcome classes, write-order numbers, tfdt, "
                        "mdat bookkeeping, tfhd/trun flags and defaults after optimisation, every data offset, moof/mdat-header/encoded sizes, "
